@@ -53,6 +53,20 @@ StripOp(d, op) ==      \* the model's MVReg put carries the writer's actor for b
   ELSE IF d.t = "or" THEN op
   ELSE IF op.kind = "up" THEN [op EXCEPT !.op = StripOp(d.of, op.op)] ELSE op
 
+\* the part of an op that layer A determines: dots, keys, elements and TOP-LEVEL remove contexts; the clocks
+\* hidden inside nested ops are layer-B detail (a difference there is drift, not a violation)
+RECURSIVE NestedView(_, _)
+NestedView(d, op) ==
+  IF d.t = "mv" THEN [val |-> op.val]
+  ELSE IF d.t = "or" THEN (IF op.kind = "rm" THEN [kind |-> "rm", members |-> op.members] ELSE op)
+  ELSE IF op.kind = "up" THEN [kind |-> "up", actor |-> op.actor, counter |-> op.counter, key |-> op.key,
+                               op |-> NestedView(d.of, op.op)]
+       ELSE [kind |-> "rm", keys |-> op.keys]
+AView(op) ==
+  IF op.kind = "up" THEN [kind |-> "up", actor |-> op.actor, counter |-> op.counter, key |-> op.key,
+                          op |-> NestedView(ValDesc, op.op)]
+  ELSE op
+
 Verdicts(e, r) ==
   LET post == ValOfJson(TopDesc, e.post)
       K == know'[r]
@@ -65,7 +79,7 @@ Verdicts(e, r) ==
                \/ post.deferred # ExpPending(ops', K)
             THEN <<[l |-> l, kind |-> "topctx"]>> ELSE <<>>
       b4 == IF Shown(TopDesc, post) # ExpSem(ops', K) THEN <<[l |-> l, kind |-> "contents"]>> ELSE <<>>
-      b5 == IF e.a = "gen" /\ OpOfJson(TopDesc, e.op[1]) # StripOp(TopDesc, ops'[Len(ops')].op)
+      b5 == IF e.a = "gen" /\ AView(OpOfJson(TopDesc, e.op[1])) # AView(StripOp(TopDesc, ops'[Len(ops')].op))
             THEN <<[l |-> l, kind |-> "op"]>> ELSE <<>>
   IN b1 \o b2 \o b3 \o b4 \o b5
 
